@@ -67,7 +67,7 @@ func (eng *Engine) verifyFunc(key string) *FuncReport {
 	rep.exec = ex
 	ex.safety = c.Safety
 	ex.reveal = c.Reveal
-	ex.budget = 1
+	ex.budget = 6000 // instructions that may be executed in inlined callees; beyond it callees are abstracted
 	wm0 := Const("wm0", IntSort)
 	st := &State{pc: True, locals: map[*ssa.Alloc][]*Term{}, heap: newHeap(wm0), wm: wm0}
 	ex.assume(True, Ge(wm0, IntLit(0)))
